@@ -110,7 +110,7 @@ func Canon(e *outmon.Expr, roleOf map[string]string) string {
 	case "deref":
 		return "*" + Canon(e.X, roleOf)
 	case "lit":
-		return "lit:" + strings.Join(strings.Fields(e.Text), "")
+		return "lit:" + refmodel.CanonLit(e.Text)
 	}
 	return "?"
 }
